@@ -69,7 +69,8 @@ def rule_R1(ctx):
     # output constructors in the closures
     n = 0
     nroles = 0
-    for cb in [x for x in P.bodies.values() if x.path.startswith(b.path + "::{closure#")]:
+    # (in the closures handed to `.map(..)`, or in analyze_tcp itself where such a closure is written as a `match`)
+    for cb in [b] + [x for x in P.bodies.values() if x.path.startswith(b.path + "::{closure#")]:
         SC = T.Slicer(cb, P)
         for (ci, cj, cs) in Q.aggregates(cb):
             ty = cs["r"]["path"].split("::")[-1]
